@@ -723,12 +723,12 @@ fn transform_body(
         };
         scan_idents(block.to_token_stream(), &mut f_ident);
     }
-    if mut_self {
-        let _ = write!(prefix, "let mut {this} = self; ");
-    }
     // ghost snapshots of entry values (for hints that must mention the initial value of a `mut` parameter)
     for (k, v) in &dirs.snaps {
         let _ = write!(prefix, "let ghost {k} = {v}; ");
+    }
+    if mut_self {
+        let _ = write!(prefix, "let mut {this} = self; ");
     }
     // `{self:?}`-style inline format args only occur inside T5-dropped macros; nothing else to do.
 
@@ -1007,6 +1007,9 @@ fn check_sig(template_name: &str, tpl: &str, hole_start: usize, name: &str, f: &
             }
         }
     }
+    if let Some(i) = sig_text.find("{ unimplemented!()") {
+        cut = cut.min(i);
+    }
     sig_text = &sig_text[..cut];
     let real = real_sig_key(f.sig(), subst, fired);
     if !nosig {
@@ -1128,7 +1131,16 @@ fn process_template(ctx: &mut Ctx, name: &str, tpl: &str) -> R<String> {
             let before_other = nb.map_or(true, |b| sp < b) && tpl[pos..].find("//@item").map_or(true, |i| sp < pos + i);
             if before_other {
                 let eol = tpl[sp..].find('\n').map_or(tpl.len(), |i| sp + i);
-                let header = tpl[sp + "//@sig".len()..eol].trim();
+                let header_full = tpl[sp + "//@sig".len()..eol].trim();
+                // optional ` | subst A=B C=D`
+                let (header, sig_subst): (&str, Vec<(String, String)>) = match header_full.split_once('|') {
+                    Some((h, rest)) => (
+                        h.trim(),
+                        rest.trim().strip_prefix("subst").unwrap_or("").split_whitespace()
+                            .filter_map(|kv| kv.split_once('=').map(|(k, v)| (k.to_string(), v.to_string()))).collect(),
+                    ),
+                    None => (header_full, Vec::new()),
+                };
                 let parts: Vec<&str> = header.split("::").map(str::trim).collect();
                 if parts.len() < 3 {
                     return bail(format!("{name}: bad @sig `{header}`"));
@@ -1139,7 +1151,7 @@ fn process_template(ctx: &mut Ctx, name: &str, tpl: &str) -> R<String> {
                 let src = ctx.load(rel)?;
                 let f = find_fn(&src.ast, &container, fname)?;
                 let mut fired = Vec::new();
-                let real = check_sig(name, tpl, sp, fname, &f, &[], false, &mut fired, rel, &container)?;
+                let real = check_sig(name, tpl, sp, fname, &f, &sig_subst, false, &mut fired, rel, &container)?;
                 let spn = f.span();
                 ctx.record.push(json!({"kind":"sig","file":rel,"container":container,"fn":fname,
                     "lines":[spn.start().line, spn.end().line],"signature":real,"template":name}));
